@@ -39,6 +39,7 @@ type Prog struct {
 	srcCache map[string][]string
 	needAppendAxiom map[string]bool
 	scc     map[string]int
+	rawOrder []string
 }
 
 func funcDisplayName(f *ssa.Function) string {
